@@ -1,12 +1,15 @@
 import libcst as cst
 from libcst import matchers as m
 
+from codemodder.codemods.utils_mixin import NameAndAncestorResolutionMixin
 from core_codemods.api import Metadata, ReviewGuidance
 
 from .combine_calls_base import CombineCallsBaseCodemod
 
 
-class CombineStartswithEndswith(CombineCallsBaseCodemod):
+class CombineStartswithEndswith(
+    CombineCallsBaseCodemod, NameAndAncestorResolutionMixin
+):
     metadata = Metadata(
         name="combine-startswith-endswith",
         summary="Simplify Boolean Expressions Using `startswith` and `endswith`",
@@ -34,7 +37,26 @@ class CombineStartswithEndswith(CombineCallsBaseCodemod):
             ],
         )
 
+    def __init__(self, *args, **kwargs):
+        super().__init__(*args, **kwargs)
+        self._calls_with_tuple_name: set[cst.Call] = set()
+
+    def leave_Call(self, original_node: cst.Call, updated_node: cst.Call):
+        # A name bound to a tuple cannot become an element of the combined
+        # tuple: `startswith` does not accept nested tuples.
+        if (
+            len(original_node.args) == 1
+            and isinstance(arg := original_node.args[0].value, cst.Name)
+            and isinstance(self.resolve_expression(arg), cst.Tuple)
+        ):
+            self._calls_with_tuple_name.add(updated_node)
+        return super().leave_Call(original_node, updated_node)
+
     def check_calls_same_instance(
         self, left_call: cst.Call, right_call: cst.Call
     ) -> bool:
-        return left_call.func.value.value == right_call.func.value.value
+        return (
+            left_call.func.value.value == right_call.func.value.value
+            and left_call not in self._calls_with_tuple_name
+            and right_call not in self._calls_with_tuple_name
+        )
